@@ -153,13 +153,12 @@ def call_ext(I, st, f, args, kw, frame, node):
         ok = bool(combos) and len(combos) <= 16
         if ok:
             for (c, vs) in combos:
-                ntrace = len(st.trace)
-                ndom = len(st.dom)
-                r = _call_builtin(I, st, f, name, vs, kw, frame, node, where)
-                if len(r) != 1 or isinstance(r[0][1], Raised) or r[0][0] is not st or len(st.dom) != ndom:
+                probe = st.clone()          # never probe on the live state: evaluation may restrict it
+                ndom = len(probe.dom)
+                r = _call_builtin(I, probe, f, name, vs, kw, frame, node, where)
+                if len(r) != 1 or isinstance(r[0][1], Raised) or len(r[0][0].dom) != ndom:
                     ok = False
                     break
-                del st.trace[ntrace:]
                 alts.append((c, r[0][1]))
         if ok:
             from .loops import _merge_alts
